@@ -207,7 +207,9 @@ class C14(InputProp):
             self.cleanup(d, env)
 
     def spellings(self, t, ns, partial, lang):
-        out = [(t, 0), (t.replace(" ", "_"), 0), (" " + t + " ", 0), (t.replace(" ", "  "), 0), (":" + t, 10)]
+        out = [(t, 0), (t.replace(" ", "_"), 0), (" " + t + " ", 0), (t.replace(" ", "  "), 0), (":" + t, 10),
+               # runs of separators: any mix of blanks and underscores is ONE separator
+               (t.replace(" ", "__"), 0), (t.replace(" ", "_ "), 0), (t.replace(" ", " _"), 0), ("_" + t.replace(" ", "_ _") + "_", 0)]
         if partial[:1].upper() != partial[:1].lower():
             lowered = partial[:1].lower() + partial[1:]
             out.append(((t.split(":", 1)[0] + ":" + lowered) if ns != 0 else lowered, 0))
@@ -273,6 +275,8 @@ class C14(InputProp):
                 sp.append(nsn + ":" + partial.replace(" ", "_"))
                 sp.append(nsn + ":" + partial[:1].lower() + partial[1:])
                 sp.append(nsn + ": " + partial + " ")
+                sp.append(nsn + ":" + partial.replace(" ", "__"))
+                sp.append(nsn + ":" + partial.replace(" ", "_ "))
             sp.append(partial)  # default namespace File
             import urllib.parse
             sp.append(canon_ns + ":" + urllib.parse.quote(partial))
